@@ -1238,3 +1238,643 @@ func init() {
 		},
 	})
 }
+
+// ---------------------------------------------------------------- every syntactic form of a method call
+//
+// A method is a member of its receiver: it can be reached with the dot, with an
+// index whose key is a string literal, a variable, a concatenation, a function
+// result, an element of an array, a member of an object or the result of an
+// assignment, with parentheses around the receiver or around the member
+// expression, and through a match binding holding the bound method. In every
+// form the call must act on the array it was invoked on. The renderer below
+// writes a program of the ideal interpreter (fam_c09.go) with every method call
+// in one of these forms; the ideal semantics do not depend on the form.
+
+var c15FormNames = []string{"R.m(A)", `R["m"](A)`, "R[kvar](A)", `R["m1" + "m2"](A)`, `R[nm("m")](A)`, "(R).m(A)", "(R.m)(A)", `(R["m"])(A)`, "R[ks[i]](A)", "R[kn.m](A)",
+	`R[kv = "m"](A)`, "(match (R.m) { mth => mth(A) })", `((R))['m'](A)`}
+
+const c15FormMatch = 11
+
+// c15Aux collects what the text of the forms needs in front of the program
+type c15Aux struct {
+	kvars []string // method names held by a variable k<name>
+	names []string // method names in the array ks and the object kn
+	useNm bool     // function nm(x) { return x }
+	useKs bool
+	useKn bool
+}
+
+func c15Add(list *[]string, s string) int {
+	for i, x := range *list {
+		if x == s {
+			return i
+		}
+	}
+	*list = append(*list, s)
+	return len(*list) - 1
+}
+
+func c15Quote(r *rand.Rand, s string) string {
+	if r != nil && chance(r, 0.4) {
+		return "'" + s + "'"
+	}
+	return `"` + s + `"`
+}
+
+// c15FormText writes the call of method m on receiver text R with argument text A in the given form
+func c15FormText(r *rand.Rand, aux *c15Aux, form int, R, m, A string) string {
+	switch form {
+	case 0:
+		return R + "." + m + "(" + A + ")"
+	case 1:
+		return R + "[" + c15Quote(r, m) + "](" + A + ")"
+	case 2:
+		c15Add(&aux.kvars, m)
+		return R + "[k" + m + "](" + A + ")"
+	case 3:
+		cut := 0
+		if r != nil {
+			cut = r.Intn(len(m) + 1)
+		} else {
+			cut = len(m) / 2
+		}
+		return R + "[" + c15Quote(r, m[:cut]) + " + " + c15Quote(r, m[cut:]) + "](" + A + ")"
+	case 4:
+		aux.useNm = true
+		return R + "[nm(" + c15Quote(r, m) + ")](" + A + ")"
+	case 5:
+		return "(" + R + ")." + m + "(" + A + ")"
+	case 6:
+		return "(" + R + "." + m + ")(" + A + ")"
+	case 7:
+		return "(" + R + "[" + c15Quote(r, m) + "])(" + A + ")"
+	case 8:
+		aux.useKs = true
+		return R + "[ks[" + fmt.Sprint(c15Add(&aux.names, m)) + "]](" + A + ")"
+	case 9:
+		aux.useKn = true
+		c15Add(&aux.names, m)
+		return R + "[kn." + m + "](" + A + ")"
+	case 10:
+		return R + "[kv = " + c15Quote(r, m) + "](" + A + ")"
+	case c15FormMatch:
+		return "(match (" + R + "." + m + ") { mth => mth(" + A + ") })"
+	case 12:
+		return "((" + R + "))['" + m + "'](" + A + ")"
+	}
+	panic("c15FormText")
+}
+
+// prelude: the statements (one per line, indented) that define what the forms refer to
+func (aux *c15Aux) prelude(ind string) string {
+	var sb strings.Builder
+	for _, m := range aux.kvars {
+		sb.WriteString(ind + "k" + m + " = \"" + m + "\"\n")
+	}
+	if aux.useKs {
+		q := make([]string, len(aux.names))
+		for i, m := range aux.names {
+			q[i] = `"` + m + `"`
+		}
+		sb.WriteString(ind + "ks = [" + strings.Join(q, ", ") + "]\n")
+	}
+	if aux.useKn {
+		q := make([]string, len(aux.names))
+		for i, m := range aux.names {
+			q[i] = m + `: "` + m + `"`
+		}
+		sb.WriteString(ind + "kn = {" + strings.Join(q, ", ") + "}\n")
+	}
+	return sb.String()
+}
+
+func (aux *c15Aux) funcs() string {
+	if aux.useNm {
+		return "function nm(x) { return x }\n"
+	}
+	return ""
+}
+
+type c15Render struct {
+	r     *rand.Rand
+	rate  float64 // share of method calls written in another form than recv.name(args)
+	brk   float64 // share of .name member reads written ["name"]
+	fixed int     // >= 0: every method call (of the statements in only, when set) in this form
+	only  map[*c09Stmt]bool
+	on    bool
+	aux   c15Aux
+	count map[int]int
+}
+
+func c15NewRender(r *rand.Rand, rate, brk float64) *c15Render {
+	return &c15Render{r: r, rate: rate, brk: brk, fixed: -1, on: true, count: map[int]int{}}
+}
+
+// does evaluating e store into a variable or member (then it must not move into a match body,
+// where a name used for the first time would be created in the body's frame)?
+func c15HasStore(es []c09Expr) bool {
+	for _, e := range es {
+		switch x := e.(type) {
+		case *c09Asg, *c09Cmp, *c09Inc:
+			return true
+		case *c09Par:
+			if c15HasStore([]c09Expr{x.e}) {
+				return true
+			}
+		case *c09Idx:
+			if c15HasStore([]c09Expr{x.base, x.key}) {
+				return true
+			}
+		case *c09ArrLit:
+			if c15HasStore(x.items) {
+				return true
+			}
+		case *c09ObjLit:
+			if c15HasStore(x.vals) {
+				return true
+			}
+		case *c09Bin:
+			if c15HasStore([]c09Expr{x.l, x.r}) {
+				return true
+			}
+		case *c09Call:
+			if x.recv == nil {
+				return true // a user function: its body may store
+			}
+			if c15HasStore(append([]c09Expr{x.recv}, x.args...)) {
+				return true
+			}
+		}
+	}
+	return false
+}
+
+func (rd *c15Render) list(es []c09Expr) string {
+	p := make([]string, len(es))
+	for i, e := range es {
+		p[i] = rd.expr(e)
+	}
+	return strings.Join(p, ", ")
+}
+
+func (rd *c15Render) expr(e c09Expr) string {
+	switch x := e.(type) {
+	case *c09Lit:
+		return x.t
+	case *c09Var:
+		return x.name
+	case *c09Par:
+		return "(" + rd.expr(x.e) + ")"
+	case *c09Idx:
+		base := rd.expr(x.base)
+		if x.dot {
+			name := x.key.(*c09Lit).v.s
+			if rd.on && rd.brk > 0 && chance(rd.r, rd.brk) {
+				return base + "[" + c15Quote(rd.r, name) + "]"
+			}
+			return base + "." + name
+		}
+		return base + "[" + rd.expr(x.key) + "]"
+	case *c09ArrLit:
+		return "[" + rd.list(x.items) + "]"
+	case *c09ObjLit:
+		p := make([]string, len(x.keys))
+		for i, k := range x.keys {
+			p[i] = k + ": " + rd.expr(x.vals[i])
+		}
+		return "{" + strings.Join(p, ", ") + "}"
+	case *c09Asg:
+		return rd.expr(x.lhs) + " = " + rd.expr(x.rhs)
+	case *c09Cmp:
+		return rd.expr(x.lhs) + " " + x.op + "= " + rd.expr(x.rhs)
+	case *c09Inc:
+		if x.prefix {
+			return x.op + rd.expr(x.lhs)
+		}
+		return rd.expr(x.lhs) + x.op
+	case *c09Bin:
+		return rd.expr(x.l) + " " + x.op + " " + rd.expr(x.r)
+	case *c09Call:
+		if x.recv == nil {
+			return x.name + "(" + rd.list(x.args) + ")"
+		}
+		form := 0
+		if rd.on {
+			if rd.fixed >= 0 {
+				form = rd.fixed
+			} else if rd.rate > 0 && chance(rd.r, rd.rate) {
+				form = 1 + rd.r.Intn(len(c15FormNames)-1)
+			}
+		}
+		if form == c15FormMatch && c15HasStore(x.args) {
+			form = 6
+		}
+		rd.count[form]++
+		R := rd.expr(x.recv)
+		return c15FormText(rd.r, &rd.aux, form, R, x.name, rd.list(x.args))
+	}
+	panic(fmt.Sprintf("c15Render: %T", e))
+}
+
+func (rd *c15Render) stmt(s *c09Stmt, ind string) string {
+	switch s.kind {
+	case "print":
+		return "print " + rd.list(s.exprs)
+	case "expr":
+		t := rd.expr(s.exprs[0])
+		if strings.HasPrefix(t, "(") {
+			// a line that starts with ( would continue the statement before it as a call
+			t = "zz = " + t
+		}
+		return t
+	case "ret":
+		return "return " + rd.expr(s.exprs[0])
+	case "forin":
+		h := s.v
+		if s.iv != "" {
+			h += ", " + s.iv
+		}
+		return "for (" + h + " in " + rd.expr(s.exprs[0]) + ") {\n" + rd.body(s.body, ind+"  ") + ind + "}"
+	case "match":
+		return "match (" + rd.expr(s.exprs[0]) + ") { " + s.v + " => {\n" + rd.body(s.body, ind+"  ") + ind + "} }\n"
+	}
+	panic("c15Render stmt " + s.kind)
+}
+
+func (rd *c15Render) body(ss []*c09Stmt, ind string) string {
+	var sb strings.Builder
+	for _, s := range ss {
+		sb.WriteString(ind + rd.stmt(s, ind) + "\n")
+	}
+	return sb.String()
+}
+
+func (rd *c15Render) prog(p *c09Prog) string {
+	var fs strings.Builder
+	for _, f := range p.funcs {
+		fs.WriteString("function " + f.name + "(" + strings.Join(f.params, ", ") + ") {\n" + rd.body(f.body, "  ") + "}\n")
+	}
+	var sb strings.Builder
+	for _, s := range p.body {
+		if rd.only != nil {
+			rd.on = rd.only[s]
+		}
+		sb.WriteString("  " + rd.stmt(s, "  ") + "\n")
+	}
+	return fs.String() + rd.aux.funcs() + "{\n" + rd.aux.prelude("  ") + sb.String() + "}\n"
+}
+
+func (rd *c15Render) formStats() string {
+	var p []string
+	for f := range c15FormNames {
+		if rd.count[f] > 0 {
+			p = append(p, fmt.Sprintf("%d:%d", f, rd.count[f]))
+		}
+	}
+	return strings.Join(p, " ")
+}
+
+// c15EmitR: like c15Emit, the program text written by the renderer
+func c15EmitR(emit func(Case), p *c09Prog, doc string, rd *c15Render, extra ...string) {
+	class, out, _ := c09Run(p, doc)
+	prog := rd.prog(p)
+	emit(Case{Req: RunReq(prog, nil, []File{{Name: "in.json", Data: []byte(doc)}}, false),
+		Fields: []string{"class", "out"}, Meta: metaProg(prog, append([]string{"input", doc, "ideal_class", class, "forms", rd.formStats()}, extra...)...),
+		Oracle: c09IdealOracle(class, out, "", false), NonTrivial: c09NT})
+}
+
+// the systematic part: every array method x every form x every place an array can live in
+func c15FormMatrix(emit func(Case)) {
+	call := func(recv c09Expr, m string, args ...c09Expr) *c09Call { return &c09Call{recv, m, args} }
+	lst := func() *c09ArrLit { return &c09ArrLit{[]c09Expr{c09NumLit(3), c09NumLit(1), c09NumLit(2)}} }
+	doc := `{"list": [3, 1, 2], "o": {"items": [5, 4]}, "m": [[7, "x"], 1]}`
+	type place struct {
+		recv  c09Expr
+		setup []*c09Stmt
+		shown []c09Expr // what to print before and after
+	}
+	a, b := c09V("a"), c09V("b")
+	places := []place{
+		{a, []*c09Stmt{c09Do(&c09Asg{a, lst()})}, []c09Expr{a}},
+		{b, []*c09Stmt{c09Do(&c09Asg{a, lst()}), c09Do(&c09Asg{b, a})}, []c09Expr{a, b}},
+		{c09Dot(c09V("$"), "list"), nil, []c09Expr{c09V("$")}},
+		{c09Dot(c09Dot(c09V("$"), "o"), "items"), nil, []c09Expr{c09V("$")}},
+		{c09At(c09Dot(c09V("$"), "m"), c09NumLit(0)), nil, []c09Expr{c09V("$")}},
+		{c09Dot(c09V("ob"), "items"), []*c09Stmt{c09Do(&c09Asg{c09V("ob"), &c09ObjLit{[]string{"items", "n"}, []c09Expr{lst(), c09NumLit(1)}}})}, []c09Expr{c09V("ob")}},
+		{c09At(c09V("w"), c09NumLit(-1)), []*c09Stmt{c09Do(&c09Asg{c09V("w"), &c09ArrLit{[]c09Expr{c09StrLit("x"), lst()}}})}, []c09Expr{c09V("w")}},
+		{c09At(c09Dot(c09V("ob"), "rows"), c09NumLit(1)), []*c09Stmt{c09Do(&c09Asg{c09V("ob"), &c09ObjLit{[]string{"rows"}, []c09Expr{&c09ArrLit{[]c09Expr{&c09ArrLit{}, lst()}}}}})}, []c09Expr{c09V("ob")}},
+	}
+	other := c09V("z")
+	probes := func(R c09Expr) []c09Expr {
+		return []c09Expr{
+			call(R, "length"), call(R, "push", c09NumLit(9)), call(R, "pop"), call(R, "popfirst"), call(R, "contains", c09NumLit(1)), call(R, "contains", c09NumLit(8)), call(R, "sort"),
+			call(R, "push", call(R, "popfirst")), call(call(R, "push", c09NumLit(4)), "length"), call(other, "push", call(R, "pop")), call(R, "push", call(other, "length")),
+			call(call(R, "sort"), "pop"), call(R, "push", call(R, "length")), c09At(R, &c09Bin{"-", call(R, "length"), c09NumLit(1)}),
+		}
+	}
+	for _, pl := range places {
+		// a bound method is not a value that can be stored or passed: copying it is an error, the array stays as it is
+		for _, bad := range []c09Expr{&c09Asg{c09V("m"), c09Dot(pl.recv, "push")}, &c09Asg{c09V("m"), c09At(pl.recv, c09StrLit("pop"))}, &c09Call{nil, "psh", []c09Expr{other, c09Dot(pl.recv, "pop")}},
+			&c09ArrLit{[]c09Expr{c09Dot(pl.recv, "length")}}, &c09ObjLit{[]string{"k"}, []c09Expr{c09At(pl.recv, c09StrLit("sort"))}}} {
+			show := append(append([]c09Expr{}, pl.shown...), call(pl.recv, "length"), other)
+			body := append(append([]*c09Stmt{c09Do(&c09Asg{other, &c09ArrLit{[]c09Expr{c09StrLit("o")}}})}, pl.setup...), c09Print(show...), c09Print(c09StrLit("r"), bad), c09Print(show...))
+			c15EmitR(emit, &c09Prog{funcs: c09Helpers, body: body}, doc, c15NewRender(nil, 0, 0), "row", "method value stored / passed")
+		}
+		for _, pr := range probes(pl.recv) {
+			for form := range c15FormNames {
+				var show []c09Expr
+				for _, s := range pl.shown {
+					show = append(show, s)
+				}
+				show = append(show, call(pl.recv, "length"), other)
+				probe := c09Print(c09StrLit("r"), pr)
+				body := append(append([]*c09Stmt{c09Do(&c09Asg{other, &c09ArrLit{[]c09Expr{c09StrLit("o")}}})}, pl.setup...), c09Print(show...), probe, c09Print(show...))
+				// once more as an expression statement
+				stmt := c09Do(pr)
+				body = append(body, stmt, c09Print(show...))
+				rd := c15NewRender(nil, 0, 0)
+				rd.fixed = form
+				rd.only = map[*c09Stmt]bool{probe: true, stmt: true}
+				c15EmitR(emit, &c09Prog{body: body}, doc, rd, "row", c15FormNames[form])
+			}
+		}
+	}
+}
+
+// ---------------------------------------------------------------- pushed values are copies
+//
+// What push appends (and what contains looks for) is the VALUE of the argument
+// expression, whatever that expression is: a member read that found nothing
+// (past the end of another array, a key an object does not have, a member of a
+// variable that was never set, of a literal), a character of a string (also
+// past its end), an element or member that exists, the result of an assignment
+// or of ++, a variable. Afterwards a write to exactly the pushed element
+// changes that element of that array and nothing else, and a write to the
+// place the value came from does not change the array.
+
+type c15Pushed struct {
+	arr  int     // which array got the value
+	src  c09Expr // where the value came from, when that is a place that can be assigned to
+	kind string
+}
+
+func (c *c15Gen) extras() []*c09Stmt {
+	return []*c09Stmt{
+		c09Do(&c09Asg{c09V("bq"), &c09ArrLit{[]c09Expr{c15Elem(c.r, 1), c15Elem(c.r, 0)}}}),
+		c09Do(&c09Asg{c09V("oq"), &c09ObjLit{[]string{"k", "n"}, []c09Expr{c15Elem(c.r, 1), c09NumLit(1)}}}),
+		c09Do(&c09Asg{c09V("sq"), c09StrLit(pick(c.r, []string{"hey", "a", "", "xyz"}))}),
+		c09Do(&c09Asg{c09V("xq"), c09NumLit(3)}),
+	}
+}
+
+var c15ExtraNames = []c09Expr{c09V("bq"), c09V("oq"), c09V("uq"), c09V("sq"), c09V("xq"), c09V("u2")}
+
+// an argument expression whose value comes with bookkeeping in the implementation
+func (c *c15Gen) specialArg(i, j int, errOK bool) (arg c09Expr, src c09Expr, kind string) {
+	r := c.r
+	N, M := c.name(i), c.name(j)
+	n, m := c.length(i), c.length(j)
+	bq, oq, uq, sq, xq := c09V("bq"), c09V("oq"), c09V("uq"), c09V("sq"), c09V("xq")
+	V := c15Elem(r, c.mode)
+	num := func(k int) c09Expr { return c09NumLit(float64(k)) }
+	for {
+		switch r.Intn(16) {
+		case 0: // past the end of another array
+			if chance(r, 0.5) {
+				e := c09At(bq, num(2+r.Intn(3)))
+				return e, e, "past the end of an array"
+			}
+			e := c09At(M, num(m+r.Intn(3)))
+			if i == j {
+				e = c09At(N, num(n+1+r.Intn(2)))
+			}
+			return e, e, "past the end of an array"
+		case 1: // a key the object does not have
+			e := pick(r, []c09Expr{c09Dot(oq, "missing"), c09At(oq, c09StrLit("nokey")), c09At(oq, num(3)), c09Dot(c09V("$"), "nothing")})
+			return e, e, "missing member of an object"
+		case 2: // a member of something that was never set
+			e := pick(r, []c09Expr{c09Dot(uq, "k"), c09At(uq, num(2)), c09Dot(c09V("u2"), "deep")})
+			return e, e, "member of an unset variable"
+		case 3: // a missing member of a missing member
+			e := pick(r, []c09Expr{c09Dot(c09Dot(oq, "p"), "q"), c09At(c09Dot(oq, "p"), num(1)), c09Dot(c09At(bq, num(5)), "k"), c09At(c09Dot(uq, "k"), num(0))})
+			return e, e, "missing member of a missing member"
+		case 4: // a character of a string, also past the end
+			e := c09At(sq, pick(r, []c09Expr{num(0), num(1), num(9), c09NumLit(0.5), num(-1)}))
+			return e, c09V("sq"), "character of a string"
+		case 5:
+			e := pick(r, []c09Expr{c09At(c09StrLit("xyz"), num(1)), c09At(c09StrLit(""), num(0)), c09At(&c09ArrLit{[]c09Expr{num(1), num(2)}}, num(5)), c09Dot(&c09ObjLit{}, "k"),
+				c09At(&c09ArrLit{[]c09Expr{num(1), num(2)}}, num(1)), c09Dot(&c09ObjLit{[]string{"k"}, []c09Expr{V}}, "k")})
+			return e, nil, "member of a literal"
+		case 6: // an element that exists
+			if m == 0 {
+				continue
+			}
+			e := c09At(M, pick(r, []c09Expr{num(r.Intn(m)), num(-1), num(-1 - r.Intn(m))}))
+			return e, e, "existing element"
+		case 7:
+			e := pick(r, []c09Expr{c09Dot(oq, "k"), c09Dot(oq, "n"), c09At(bq, num(0)), c09At(bq, num(-1))})
+			return e, e, "existing member"
+		case 8: // the result of an assignment
+			lhs := pick(r, []c09Expr{xq, c09Dot(oq, "n"), c09Dot(oq, "fresh"), c09At(bq, num(1)), c09At(bq, num(3)), c09Dot(uq, "k"), c09V("yq")})
+			return &c09Asg{lhs, V}, lhs, "result of an assignment"
+		case 9:
+			lhs := pick(r, []c09Expr{xq, c09Dot(oq, "n"), c09At(bq, num(0)), c09At(bq, num(4)), c09Dot(oq, "cnt")})
+			return pick(r, []c09Expr{&c09Inc{lhs, "++", false}, &c09Inc{lhs, "--", true}, &c09Cmp{lhs, "+", num(2)}, &c09Par{&c09Asg{lhs, V}}}), lhs, "result of ++ / op="
+		case 10:
+			return xq, xq, "variable"
+		case 11: // a method value: cannot be copied
+			if !errOK {
+				continue
+			}
+			return pick(r, []c09Expr{c09Dot(N, "pop"), c09Dot(M, "length"), c09Dot(sq, "upper"), c09At(N, c09StrLit("push"))}), nil, "method value"
+		case 12: // missing member reached with the index form of a name
+			e := pick(r, []c09Expr{c09At(oq, c09StrLit("missing")), c09At(N, c09StrLit("nosuch")), c09Dot(M, "nomethod"), c09Dot(sq, "nomethod"), c09Dot(xq, "nomethod")})
+			return e, nil, "a name that is no method"
+		case 13: // the value of a call
+			return pick(r, []c09Expr{&c09Call{M, "pop", nil}, &c09Call{bq, "popfirst", nil}, &c09Call{bq, "length", nil}, &c09Call{M, "sort", nil}}), nil, "result of a call"
+		default:
+			return V, nil, "plain value"
+		}
+	}
+}
+
+func (c *c15Gen) showAll() {
+	r := c.r
+	for ai := range c.arrs {
+		nm := c.arrs[ai].names[0]
+		if chance(r, 0.3) {
+			nm = pick(r, c.arrs[ai].names)
+		}
+		c.add(c09Print(nm, &c09Call{nm, "length", nil}))
+	}
+	c.add(c09Print(append([]c09Expr{c09StrLit("x")}, c15ExtraNames...)...))
+}
+
+// stepPushed: a push / contains of a special argument, or a write that follows one up
+func (c *c15Gen) stepPushed(k int, last *c15Pushed, errOK bool) *c15Pushed {
+	r := c.r
+	tag := c09StrLit(fmt.Sprintf("#%d", k))
+	call := func(recv c09Expr, m string, args ...c09Expr) *c09Call { return &c09Call{recv, m, args} }
+	V := c15Elem(r, c.mode)
+	num := func(k int) c09Expr { return c09NumLit(float64(k)) }
+	x := r.Float64()
+	if last == nil && x < 0.55 {
+		x = 0.6
+	}
+	var next *c15Pushed
+	switch {
+	case x < 0.35:
+		// a write to exactly the pushed element
+		N := c.name(last.arr)
+		n := c.length(last.arr)
+		at := pick(r, []c09Expr{num(n - 1), num(-1), num(-1), c09NumLit(float64(n) - 0.5)})
+		if n == 0 {
+			at = num(0)
+		}
+		el := c09At(N, at)
+		var e c09Expr
+		switch r.Intn(9) {
+		case 0, 1, 2:
+			e = &c09Asg{el, V}
+		case 3:
+			e = &c09Inc{el, pick(r, []string{"++", "--"}), chance(r, 0.5)}
+		case 4:
+			e = &c09Cmp{el, pick(r, []string{"+", "-", "*"}), num(2)}
+		case 5:
+			e = &c09Asg{el, &c09ArrLit{[]c09Expr{V}}}
+		case 6:
+			e = &c09Asg{el, el}
+		case 7:
+			if errOK {
+				e = &c09Asg{pick(r, []c09Expr{c09Dot(el, "k"), c09At(el, num(0))}), V} // a member of the element: creates a container in an unset element only
+			} else {
+				e = &c09Asg{el, c09StrLit("set")}
+			}
+		default:
+			e = &c09Asg{el, call(N, "length")}
+		}
+		c.add(c09Print(tag, e))
+		if chance(r, 0.6) {
+			next = last
+		}
+	case x < 0.55:
+		// a write to the place the value came from
+		if last.src == nil {
+			c.add(c09Print(tag, call(c.name(last.arr), "length")))
+			break
+		}
+		var e c09Expr
+		switch r.Intn(5) {
+		case 0, 1:
+			e = &c09Asg{last.src, V}
+		case 2:
+			e = &c09Inc{last.src, "++", chance(r, 0.5)}
+		case 3:
+			e = &c09Cmp{last.src, "+", c09StrLit("z")}
+		default:
+			e = &c09Asg{last.src, &c09ArrLit{[]c09Expr{V}}}
+		}
+		c.add(c09Print(tag, e))
+		if chance(r, 0.5) {
+			next = last
+		}
+	case x < 0.85:
+		i, j := r.Intn(len(c.arrs)), r.Intn(len(c.arrs))
+		arg, src, kind := c.specialArg(i, j, errOK)
+		N := c.name(i)
+		switch r.Intn(8) {
+		case 0:
+			c.add(c09Do(call(N, "push", arg)))
+		case 1:
+			c.add(c09Print(tag, call(call(N, "push", arg), "length")))
+		case 2:
+			// twice: two arrays (or one array twice) get the value of the same expression
+			c.add(c09Print(tag, call(N, "push", arg), call(c.name(j), "push", arg)))
+		case 3:
+			c.add(c09Print(tag, &c09Call{nil, "psh", []c09Expr{N, arg}}))
+		default:
+			c.add(c09Print(tag, call(N, "push", arg)))
+		}
+		next = &c15Pushed{arr: i, src: src, kind: kind}
+	case x < 0.92:
+		i, j := r.Intn(len(c.arrs)), r.Intn(len(c.arrs))
+		if c.hasContainer(i) && !errOK {
+			c.add(c09Print(tag, call(c.name(i), "length")))
+			break
+		}
+		arg, _, _ := c.specialArg(i, j, errOK)
+		c.add(c09Print(tag, call(c.name(i), "contains", arg)))
+		next = last
+	default:
+		// the sorted copy has elements of its own
+		i := r.Intn(len(c.arrs))
+		N := c.name(i)
+		n := c.length(i)
+		t := c09V("t")
+		c.add(c09Do(&c09Asg{t, call(N, "sort")}))
+		if n > 0 {
+			if chance(r, 0.5) {
+				c.add(c09Do(&c09Asg{c09At(t, num(r.Intn(n))), V}), c09Do(&c09Inc{c09At(t, num(-1)), "++", false}))
+			} else {
+				c.add(c09Do(&c09Asg{c09At(N, num(r.Intn(n))), V}), c09Do(&c09Inc{c09At(N, num(-1)), "++", false}))
+			}
+		}
+		c.add(c09Print(tag, t))
+		next = last
+	}
+	c.showAll()
+	return next
+}
+
+func c15PushedSequence(r *rand.Rand, mode, steps int, errOK bool) (*c09Prog, string, map[string]int) {
+	c, doc := c15Setup(r, mode)
+	c.add(c.extras()...)
+	kinds := map[string]int{}
+	var last *c15Pushed
+	for k := 1; k <= steps && !c.dead; k++ {
+		last = c.stepPushed(k, last, errOK && k > steps/2)
+		if last != nil {
+			kinds[last.kind]++
+		}
+	}
+	return &c09Prog{funcs: c09Helpers, body: c.body}, doc, kinds
+}
+
+func init() {
+	register(Family{
+		Name: "call-forms", Prop: "C15",
+		Rule: "every array method reached in every syntactic form: R.m(A), R[\"m\"](A) in either quote, R[k](A) with k a variable, a concatenation, a function result, an array element, an object member, the result of an assignment; (R).m(A), (R.m)(A), (R[\"m\"])(A), ((R))['m'](A), and through a match binding holding the bound method. Systematic part: 13 forms x 14 probes (each method, calls nested in arguments of both forms, chained, on a sorted copy) x 8 places (variable, alias, $.list, $.o.items, $.m[0], ob.items, w[-1], ob.rows[1]), as a print argument and as an expression statement, the place printed before and after. Random part: the operation sequences of ops-ideal (1-3 arrays in variables / the document / containers, aliases, nested calls, calls through parameters, match bindings, for-in variables) with 35 % or all method calls in a random form and 0-30 % of the .name member reads written [\"name\"]; oracle: the ideal lists of fam_c09.go predict the whole output whatever the form; also compared with the model; non-trivial = distinct program ending ok or in a runtime error",
+		Gen: func(r *rand.Rand, tier string, emit func(Case)) {
+			c15FormMatrix(emit)
+			n := tierN(tier, 1200, 15000)
+			for i := 0; i < n; i++ {
+				steps := 3 + r.Intn(30)
+				mode := r.Intn(3)
+				p, doc := c15Sequence(r, mode, steps, chance(r, 0.3))
+				rd := c15NewRender(r, pick(r, []float64{0.35, 1}), pick(r, []float64{0, 0.3}))
+				c15EmitR(emit, p, doc, rd, "mode", fmt.Sprint(mode), "steps", fmt.Sprint(steps))
+			}
+		},
+	})
+	register(Family{
+		Name: "pushed-values", Prop: "C15",
+		Rule: "push / contains with arguments whose value comes from a member read that found nothing (past the end of another or the same array, a key an object lacks, a member of a never-set variable, a missing member of a missing member, of a literal), a string character (inside, past the end, fractional or negative index), an existing element / member, the result of an assignment, ++, --, op=, a variable, a call, a method value (error), a name that is no method; directly, chained, twice in one statement, through a parameter; followed (35 %) by writes to exactly the pushed element (a[n-1] = v, a[-1] = v, ++ -- += on it, a member of it, itself) and (20 %) to the place the value came from (= ++ += a new container), contains of such arguments, element writes into a sorted copy / the original after sort; 1-3 arrays (variables, document, containers, aliases), every array with its length and bq oq uq sq xq u2 printed after each step; 30 % of the programs with method calls in random syntactic forms; oracle: ideal interpreter (a pushed value is a copy: later writes reach exactly one place); also compared with the model",
+		Gen: func(r *rand.Rand, tier string, emit func(Case)) {
+			n := tierN(tier, 1500, 15000)
+			for i := 0; i < n; i++ {
+				steps := 2 + r.Intn(14)
+				mode := r.Intn(3)
+				p, doc, kinds := c15PushedSequence(r, mode, steps, chance(r, 0.3))
+				rate := 0.0
+				if chance(r, 0.3) {
+					rate = 0.5
+				}
+				ks := make([]string, 0, len(kinds))
+				for k := range kinds {
+					ks = append(ks, k)
+				}
+				c15EmitR(emit, p, doc, c15NewRender(r, rate, 0), "mode", fmt.Sprint(mode), "steps", fmt.Sprint(steps), "kinds", fmt.Sprint(len(ks)))
+			}
+		},
+	})
+}
